@@ -366,6 +366,27 @@ func ruleB4(p *Prog) *RuleResult {
 						}
 					}
 				}
+				// ... and it must not have run already: the Validate call sits on the error-is-nil side of
+				// a test of the decoder's error (a failed decode leaves a half-built table behind)
+				if guarded {
+					onNilSide := false
+					for _, ifi := range u.tested {
+						cmp, _ := ifi.Cond.(*ssa.BinOp)
+						if cmp == nil {
+							continue
+						}
+						nilEdge := 1 // err != nil: the false edge is the nil side
+						if cmp.Op == token.EQL {
+							nilEdge = 0
+						}
+						if dominatedByEdge(ifi.Block(), nilEdge, val.Block()) {
+							onNilSide = true
+						}
+					}
+					if !onNilSide {
+						guarded = false
+					}
+				}
 				if guarded {
 					res.ok(c+"|error", pos, "decode error returned before validation")
 				} else {
